@@ -221,6 +221,15 @@ func RunSoloScript(r sim.Src, mons []*sim.Mon, keepLog bool, sh SoloShape) *Solo
 			if primaryRoundDelayed {
 				resetAfter = true
 			}
+			if sh.ClockSteps && r.Intn("prevback", 5) == 0 {
+				// the ledger reports an older previous-block timestamp than at an earlier height (a reorganisation):
+				// the timestamp given at this re-initialisation is the only one that counts
+				back := uint64(tpb) * uint64(1+r.Intn("prevbackby", 8))
+				if back < nd.TipTs {
+					nd.TipTs -= back
+					out.Classes["prev_timestamp_moved_back"]++
+				}
+			}
 			nd.Reset()
 			out.Classes["heights"]++
 		}
